@@ -430,3 +430,28 @@ def check_coverage(res, required, what):
     missing = [a for a in required if res.coverage.get(a, (0, 0))[1] == 0]
     if missing:
         raise ToolFailure(f"vacuity: actions never taken in {what}: {missing}")
+
+
+# ------------------------------------------------------------------------------------------------
+# Apalache (symbolic; used for inductive steps of small modules, always under a timeout)
+# ------------------------------------------------------------------------------------------------
+
+def run_apalache(module, init, inv, length, timeout=900):
+    """apalache-mc check --init --inv --length on spec/<module>.tla ; returns "NoError" | "Error" | "timeout" | "failed" """
+    outdir = BUILD / f"apalache.{os.getpid()}"
+    cmd = ["apalache-mc", "check", f"--init={init}", f"--inv={inv}", f"--length={length}", f"--out-dir={outdir}",
+           str(SPEC / f"{module}.tla")]
+    try:
+        p = subprocess.run(cmd, cwd=SPEC, capture_output=True, text=True, timeout=timeout)
+    except subprocess.TimeoutExpired:
+        shutil.rmtree(outdir, ignore_errors=True)
+        return "timeout"
+    except FileNotFoundError:
+        return "failed"
+    shutil.rmtree(outdir, ignore_errors=True)
+    out = p.stdout + p.stderr
+    if "The outcome is: NoError" in out:
+        return "NoError"
+    if "The outcome is: Error" in out:
+        return "Error"
+    return "failed"
